@@ -239,7 +239,8 @@ CLAIMS.update({
         technique="Coq proof over a model of diff + exact-boundary differential correspondence"),
     "C18": dict(
         text=("Theorems for ALL rankings: the untied ranking is a permutation of 1..n, keeps every strict preference, breaks "
-              "ties by order of appearance and equals the original when there are no ties; a comparator cell depends on the "
+              "ties by order of appearance and equals the original when there are no ties; it is the inverse permutation of "
+              "the stable argsort of the ranks (the double argsort the repaired code computes IS the specification); a comparator cell depends on the "
               "ranking only as a name->rank map (listing order irrelevant); tables are square over the rankings, cell (i,j) "
               "compares ranking i with ranking j, covariance and distance tables are symmetric; diagonal values: distance 0, covariance = variance, "
               "R2 = 1, cov(v,v) = var(v) (so self-correlation 1). Findings.v refutes the unrepaired argsort+1. Tie to /repo: "
